@@ -9,7 +9,14 @@ snapshots of every watched module at
   previous step),
 * every ``record_stat`` / ``record_epoch`` call of the logger (live modules
   right after an update),
-* after the routine returned.
+* right before every call of the routine (``init``: the caller's networks as
+  they are handed over) and after the routine returned.
+
+Supplied targets are clones of the online networks or, with
+``cfg["target_offset"]``, clones whose every ``nnx.Param`` leaf was changed
+(``0.5 * x + c``): targets as a caller holds them after earlier training.
+``cfg["split"]`` (MR.Q) runs the history as two calls, the second continuing
+at ``global_step = split`` with everything the first call returned.
 
 Modules that only the routine knows (TD7 fixed embeddings / checkpoints) are
 added to the watch list when the logger is first shown them.
@@ -102,6 +109,23 @@ def _clone(m):
     return nnx.clone(m)
 
 
+def _supplied(m, cfg, idx=0):
+    """The target network handed to the routine: a clone of ``m``; with
+    ``cfg["target_offset"]`` every nnx.Param leaf x becomes 0.5 * x + c
+    (c a dyadic constant chosen by the case), so that the supplied target
+    differs from the online network in every parameter leaf.  Other variables
+    (action scale / bias) keep their values."""
+    import jax
+    from flax import nnx
+
+    t = nnx.clone(m)
+    if cfg.get("target_offset"):
+        c = np.float32((1 + (int(cfg["net_seed"]) + idx) % 5) / 64.0)
+        state = nnx.state(t, nnx.Param)
+        nnx.update(t, jax.tree_util.tree_map(lambda x: (x * np.float32(0.5) + c).astype(x.dtype), state))
+    return t
+
+
 def run_history(algo, cfg, supply_targets=True, observe=True):
     """Returns (rec, out) with out = {"online": {...}, "targets": {...},
     "extra": {...}, "result": namedtuple} (modules by canonical name)."""
@@ -129,7 +153,7 @@ def _dqn_common(cfg, rec, logger, supply, which):
     env = _env(cfg, rec, discrete=True)
     q = MLP(OBS_DIM, N_ACTIONS, HIDDEN, "relu", nnx.Rngs(cfg["net_seed"]))
     opt = nnx.Optimizer(q, optax.adam(cfg["lr"]), wrt=nnx.Param)
-    tgt = _clone(q) if supply else None
+    tgt = _supplied(q, cfg) if supply else None
     rec.watch("q", q)
     if tgt is not None:
         rec.watch("q_target", tgt)
@@ -137,6 +161,7 @@ def _dqn_common(cfg, rec, logger, supply, which):
               update_frequency=cfg["update_frequency"], target_update_frequency=cfg["target_delay"],
               learning_starts=cfg["learning_starts"], q_target_net=tgt, seed=cfg["seed"], logger=logger,
               global_step=cfg.get("global_step", 0), progress_bar=False)
+    rec.snap("init")
     if which == "per":
         from rl_blox.algorithm.per import train_ddqn_per
 
@@ -194,13 +219,14 @@ def _run_ddpg(cfg, rec, logger, supply):
 
     env = _env(cfg, rec, discrete=False)
     policy, popt, q, qopt = _actor_critic_states(cfg, env, double_q=False)
-    pt = _clone(policy) if supply else None
-    qt = _clone(q) if supply else None
+    pt = _supplied(policy, cfg, 0) if supply else None
+    qt = _supplied(q, cfg, 1) if supply else None
     rec.watch("policy", policy)
     rec.watch("q", q)
     if supply:
         rec.watch("policy_target", pt)
         rec.watch("q_target", qt)
+    rec.snap("init")
     res = train_ddpg(env, policy, popt, q, qopt, seed=cfg["seed"], total_timesteps=cfg["total_timesteps"],
                      gamma=GAMMA, tau=cfg["tau"], batch_size=cfg["batch_size"],
                      gradient_steps=cfg["gradient_steps"], learning_starts=cfg["learning_starts"],
@@ -217,13 +243,14 @@ def _run_td3(cfg, rec, logger, supply, lap=False):
 
     env = _env(cfg, rec, discrete=False)
     policy, popt, q, qopt = _actor_critic_states(cfg, env, double_q=True)
-    pt = _clone(policy) if supply else None
-    qt = _clone(q) if supply else None
+    pt = _supplied(policy, cfg, 0) if supply else None
+    qt = _supplied(q, cfg, 1) if supply else None
     rec.watch("policy", policy)
     rec.watch("q", q)
     if supply:
         rec.watch("policy_target", pt)
         rec.watch("q_target", qt)
+    rec.snap("init")
     kw = dict(seed=cfg["seed"], total_timesteps=cfg["total_timesteps"], gamma=GAMMA, tau=cfg["tau"],
               policy_delay=cfg["target_delay"], batch_size=cfg["batch_size"],
               gradient_steps=cfg["gradient_steps"], learning_starts=cfg["learning_starts"],
@@ -265,10 +292,11 @@ def _run_sac(cfg, rec, logger, supply):
     q = ContinuousClippedDoubleQNet(MLP(OBS_DIM + 1, 1, HIDDEN, "relu", nnx.Rngs(s + 1)),
                                     MLP(OBS_DIM + 1, 1, HIDDEN, "relu", nnx.Rngs(s + 2)))
     qopt = nnx.Optimizer(q, optax.adam(cfg["lr"]), wrt=nnx.Param)
-    qt = _clone(q) if supply else None
+    qt = _supplied(q, cfg) if supply else None
     rec.watch("q", q)
     if supply:
         rec.watch("q_target", qt)
+    rec.snap("init")
     res = train_sac(env, policy, popt, q, qopt, seed=cfg["seed"], total_timesteps=cfg["total_timesteps"],
                     gamma=GAMMA, tau=cfg["tau"], batch_size=cfg["batch_size"],
                     learning_starts=cfg["learning_starts"], policy_delay=cfg["policy_delay"],
@@ -297,8 +325,8 @@ def _run_td7(cfg, rec, logger, supply):
     env = _env(cfg, rec, discrete=False)
     st = td7_states(cfg, env)
     env.action_space.seed(cfg["seed"])
-    at = _clone(st.actor) if supply else None
-    ct = _clone(st.critic) if supply else None
+    at = _supplied(st.actor, cfg, 0) if supply else None
+    ct = _supplied(st.critic, cfg, 1) if supply else None
     # names follow the logger's documented epoch names
     rec.watch("embedding", st.embedding)
     rec.watch("policy", st.actor)
@@ -309,6 +337,7 @@ def _run_td7(cfg, rec, logger, supply):
     from .instruments import state_arrays
 
     initial = {"embedding": state_arrays(st.embedding), "policy": state_arrays(st.actor)}
+    rec.snap("init")
     res = train_td7(env, st.embedding, st.embedding_optimizer, st.actor, st.actor_optimizer, st.critic,
                     st.critic_optimizer, seed=cfg["seed"], total_timesteps=cfg["total_timesteps"],
                     gamma=GAMMA, target_delay=cfg["target_delay"], policy_delay=cfg["policy_delay"],
@@ -352,23 +381,37 @@ def _run_mrq(cfg, rec, logger, supply):
                           encoder_zs_dim=3, encoder_za_dim=2, encoder_zsa_dim=3, encoder_hidden_nodes=HIDDEN,
                           encoder_learning_rate=cfg["lr"], seed=cfg["net_seed"])
     env.action_space.seed(cfg["seed"])
-    pt = _clone(st.policy_with_encoder) if supply else None
-    qt = _clone(st.q) if supply else None
+    pt = _supplied(st.policy_with_encoder, cfg, 0) if supply else None
+    qt = _supplied(st.q, cfg, 1) if supply else None
     rec.watch("policy_with_encoder", st.policy_with_encoder)
     rec.watch("q", st.q)
     if supply:
         rec.watch("policy_with_encoder_target", pt)
         rec.watch("q_target", qt)
     rb = SubtrajectoryReplayBufferPER(cfg["buffer_size"], horizon=max(MRQ_ENC_H, MRQ_Q_H))
-    res = train_mrq(env, st.policy_with_encoder, st.encoder_optimizer, st.policy_optimizer, st.q, st.q_optimizer,
-                    st.the_bins, seed=cfg["seed"], total_timesteps=cfg["total_timesteps"], gamma=GAMMA,
-                    target_delay=cfg["target_delay"], batch_size=cfg["batch_size"],
-                    learning_starts=cfg["learning_starts"], encoder_horizon=MRQ_ENC_H, q_horizon=MRQ_Q_H,
-                    replay_buffer=rb, policy_with_encoder_target=pt, q_target=qt, logger=logger,
-                    global_step=cfg.get("global_step", 0), progress_bar=False)
+    pt0, qt0 = pt, qt
+    g0 = cfg.get("global_step", 0)
+    split = cfg.get("split")
+    # one call, or a first call up to ``split`` and a continuation call that is given what the first returned
+    segments = [(g0, cfg["total_timesteps"])] if not split else [(g0, split), (split, cfg["total_timesteps"])]
+    pwe, eopt, popt, q, qopt = st.policy_with_encoder, st.encoder_optimizer, st.policy_optimizer, st.q, st.q_optimizer
+    for a, b in segments:
+        rec.snap("init")
+        res = train_mrq(env, pwe, eopt, popt, q, qopt, st.the_bins, seed=cfg["seed"], total_timesteps=b,
+                        gamma=GAMMA, target_delay=cfg["target_delay"], batch_size=cfg["batch_size"],
+                        learning_starts=cfg["learning_starts"], encoder_horizon=MRQ_ENC_H, q_horizon=MRQ_Q_H,
+                        replay_buffer=rb, policy_with_encoder_target=pt, q_target=qt, logger=logger,
+                        global_step=a, progress_bar=False)
+        if split:
+            assert res.global_step == b, ("harness: call ended early, timeline would be discontinuous", res.global_step, b)
+        pwe, eopt, popt, q, qopt = (res.policy_with_encoder, res.encoder_optimizer, res.policy_optimizer, res.q,
+                                    res.q_optimizer)
+        rb = res.replay_buffer
+        # the continuation is given the targets the first call returned (also in the target=None twin)
+        pt, qt = res.policy_with_encoder_target, res.q_target
     return {"pairs_final": {"policy_with_encoder_target": (res.policy_with_encoder_target, res.policy_with_encoder),
                             "q_target": (res.q_target, res.q)},
-            "supplied": {"policy_with_encoder_target": pt, "q_target": qt}, "result": res, "env": env,
+            "supplied": {"policy_with_encoder_target": pt0, "q_target": qt0}, "result": res, "env": env,
             "given_online": {"policy_with_encoder": st.policy_with_encoder, "q": st.q},
             "final_watch": {"policy_with_encoder_target": res.policy_with_encoder_target,
                             "q_target": res.q_target}}
